@@ -10,17 +10,19 @@ open AL AL.Rules
 
 /-- the output for a file inside a project is in non-decreasing order of (line, column) -/
 theorem projLint_sorted (cfg : AL.PW.Cfg) (isNum urlOk : String → Bool) (env : AL.ProjLint.Env) (doc : AL.Yaml.Node) :
-    (AL.ProjLint.lint cfg isNum urlOk env doc).Pairwise AL.C02R.le :=
-  AL.C02R.sort_sorted _
+    (AL.ProjLint.lint cfg isNum urlOk env doc).Pairwise AL.C02R.le := by
+  simp only [AL.ProjLint.lint]
+  exact AL.C02R.sort_sorted _
 
 /-- … and is a rearrangement of: the parser's diagnostics, the AST rules', what rule workflow-call adds for local callees,
 what rule action adds for local actions — nothing dropped, nothing reported twice by the sort -/
 theorem projLint_perm (cfg : AL.PW.Cfg) (isNum urlOk : String → Bool) (env : AL.ProjLint.Env) (doc : AL.Yaml.Node) :
     (AL.ProjLint.lint cfg isNum urlOk env doc).Perm
-      ((AL.PW.parse cfg doc).2.map ofPErr ++ rules cfg.lower isNum urlOk (AL.PW.parse cfg doc).1 ++
+      ((AL.PW.parse cfg doc).2.map ofPErr ++ rules cfg.lower isNum urlOk (AL.PW.parse cfg doc).1 env.labels ++
         AL.ProjCall.wcRule env.calls cfg.lower (AL.PW.parse cfg doc).1 ++
-        (AL.ProjAction.simulate env.actions (AL.PW.parse cfg doc).1).action) :=
-  AL.C09R.stableSort_perm _
+        (AL.ProjAction.simulate env.actions (AL.PW.parse cfg doc).1).action) := by
+  simp only [AL.ProjLint.lint]
+  exact AL.C09R.stableSort_perm _
 
 /-- without a project nothing is added: no look-up answers, no diagnostic of rule workflow-call beyond the format check,
 none for local actions -/
